@@ -46,7 +46,10 @@ namespace Givaro {
     inline typename MOD::Element&
     MOD::init(Element& r, const Source a) const
     {
-        r = Caster<Element>(std::abs(a) % Caster<Source>(_p));
+        // magnitude in the unsigned type: std::abs(a) overflows for the minimum of Source
+        typedef typename std::make_unsigned<Source>::type USource;
+        const USource ua = (a < 0) ? USource(USource(0) - USource(a)) : USource(a);
+        r = Caster<Element>(ua % Caster<USource>(_p));
         if (a < 0) negin(r);
         return r;
     }
